@@ -62,7 +62,7 @@ Definition mon_eds (sn : eds_snapshot) (obs : eds_obs) : list N :=
 
 Definition chk (c : case) : list N :=
   match c with
-  | CErs sn obs => code_if (step_ok_ers sn obs) 1
+  | CErs sn obs => code_if (step_ok_ers sn obs) 1 ++ mon_failed_sticky sn obs 16
   | CEds sn obs => code_if (step_ok_eds sn obs) 1 ++ mon_eds sn obs
   end.
 Definition run (cs : list case) : list (N * N) := run_cases chk 0%N cs.
